@@ -25,7 +25,7 @@ use rustc_middle::mir::{
     self, AggregateKind, BasicBlock, Body, Operand, Place, ProjectionElem, Rvalue, StatementKind,
     TerminatorKind,
 };
-use rustc_middle::ty::{self, GenericArgsRef, Instance, Ty, TyCtxt, TypingEnv};
+use rustc_middle::ty::{self, GenericArgsRef, Instance, Ty, TyCtxt, TypeVisitableExt, TypingEnv};
 use rustc_span::Span;
 use std::collections::{BTreeMap, BTreeSet, HashMap};
 
@@ -752,6 +752,20 @@ fn fn_ref_json<'tcx>(cx: &mut Cx<'tcx>, owner: DefId, fid: DefId, args: GenericA
             f.push(("self_ty", J::s(&format!("{st}"))));
         }
     }
+    // size_of::<T>() / align_of::<T>() of a concrete T: export the value (decoder guards compare against it)
+    {
+        let pth = tcx.def_path_str(fid);
+        if pth == "core::mem::size_of" || pth == "core::intrinsics::size_of" || pth == "std::mem::size_of" {
+            if let Some(t) = args.types().next() {
+                if !t.has_param() && !t.has_aliases() {
+                    let env2 = TypingEnv::fully_monomorphized();
+                    if let Ok(lay) = tcx.layout_of(env2.as_query_input(t)) {
+                        f.push(("size_of", J::s(&format!("{}", lay.size.bytes()))));
+                    }
+                }
+            }
+        }
+    }
     // resolution
     let env = TypingEnv::post_analysis(tcx, owner);
     let resolved = std::panic::catch_unwind(std::panic::AssertUnwindSafe(|| {
@@ -957,8 +971,45 @@ fn term_json<'tcx>(cx: &mut Cx<'tcx>, owner: DefId, body: &Body<'tcx>, term: &mi
                 let head: String = s.chars().take(60).collect();
                 head
             };
+            let mut aops: Vec<J> = Vec::new();
+            let akind: &str = match &**msg {
+                mir::AssertKind::BoundsCheck { len, index } => {
+                    aops.push(operand_json(cx, owner, body, len));
+                    aops.push(operand_json(cx, owner, body, index));
+                    "BoundsCheck"
+                }
+                mir::AssertKind::Overflow(op, a, b) => {
+                    aops.push(operand_json(cx, owner, body, a));
+                    aops.push(operand_json(cx, owner, body, b));
+                    match op {
+                        mir::BinOp::Add => "Overflow(Add)",
+                        mir::BinOp::Sub => "Overflow(Sub)",
+                        mir::BinOp::Mul => "Overflow(Mul)",
+                        mir::BinOp::Shl => "Overflow(Shl)",
+                        mir::BinOp::Shr => "Overflow(Shr)",
+                        _ => "Overflow(Other)",
+                    }
+                }
+                mir::AssertKind::OverflowNeg(o) => {
+                    aops.push(operand_json(cx, owner, body, o));
+                    "OverflowNeg"
+                }
+                mir::AssertKind::DivisionByZero(o) => {
+                    aops.push(operand_json(cx, owner, body, o));
+                    "DivisionByZero"
+                }
+                mir::AssertKind::RemainderByZero(o) => {
+                    aops.push(operand_json(cx, owner, body, o));
+                    "RemainderByZero"
+                }
+                mir::AssertKind::MisalignedPointerDereference { .. } => "MisalignedPointerDereference",
+                mir::AssertKind::NullPointerDereference => "NullPointerDereference",
+                _ => "Other",
+            };
             J::obj(vec![
                 ("k", J::s("assert")),
+                ("akind", J::s(akind)),
+                ("aops", J::arr(aops)),
                 ("cond", operand_json(cx, owner, body, cond)),
                 ("expected", J::b(*expected)),
                 ("msg", J::s(&kind)),
